@@ -635,7 +635,7 @@ func (r *runner) doStep(st Step) {
 		r.t.Fatalf("unknown step %q", st.A)
 	}
 	s.Settle()
-	if st.Proj != nil && r.stats["diverged"]+s.Diverged == 0 && r.stats["drift"] == 0 {
+	if st.Proj != nil && r.stats["diverged"]+s.Diverged == 0 && r.stats["drift"] == 0 && !s.Holding() { // (the snapshot takes the server's lock)
 		// binding of the Impl spec: the real server's bookkeeping after this step must be the model's
 		// (diagnostic only: a mismatch is reported as conformance drift, never as a verdict)
 		sn := r.srv.VerifSnapshot()
@@ -648,7 +648,11 @@ func (r *runner) doStep(st Step) {
 		}
 	}
 	if len(s.Waiting) == 0 {
-		r.rec.Log("Quiescent")
+		if os.Getenv("VERIF_DEBUG_SETTLE") != "" {
+			r.rec.Log("Quiescent", "holding", s.Holding(), "useext", s.UseExt, "step", st.A, "iters", vh.LastIters)
+		} else {
+			r.rec.Log("Quiescent")
+		}
 	} else if s.Hold != nil && s.Others() == 0 {
 		// nothing can move except the channel operation the scenario holds: what does not need that operation
 		// (nor the lock its caller may hold) to finish must have happened all the same
